@@ -132,6 +132,13 @@ func (g *gen) genMixed(nops int, w mixW) {
 			}
 			x -= c.w
 		}
+		if g.prof == "iofault" && g.r.IntN(3) == 0 {
+			switch name {
+			case "ingest", "ingestexcise", "excise", "flush", "compact", "reopen":
+				// a one-shot fault placed inside the operation that follows
+				g.add(DBOp{K: "armfault", Mode: pick(&g.r, armFaultNames), N: g.r.IntN(10)})
+			}
+		}
 		switch name {
 		case "write":
 			g.add(g.writeOp(w.rangeKeys))
@@ -143,7 +150,11 @@ func (g *gen) genMixed(nops int, w mixW) {
 			a, b := g.prefixSpan()
 			g.add(DBOp{K: "excise", Key: a, End: b})
 		case "flush":
-			g.add(DBOp{K: "flush"})
+			if g.r.IntN(3) == 0 {
+				g.add(DBOp{K: "aflush"})
+			} else {
+				g.add(DBOp{K: "flush"})
+			}
 		case "compact":
 			a, b := g.span()
 			g.add(DBOp{K: "compact", Key: a, End: b, Flag: g.r.IntN(2) == 0})
